@@ -1669,8 +1669,76 @@ def run(ctx):
     ctx.log("correspondence done")
 
 
+def nexp_of(env, t, ranks):
+    """nat term -> the model's NExp; anything norm_full leaves alone is an atom (rank, size)."""
+    if t.is_number():
+        return ["num", t.dest_number()]
+    if t.is_plus():
+        return ["add", nexp_of(env, t.arg1, ranks), nexp_of(env, t.arg, ranks)]
+    if t.is_times():
+        return ["mul", nexp_of(env, t.arg1, ranks), nexp_of(env, t.arg, ranks)]
+    if t.is_comb("Suc", 1):
+        return ["suc", nexp_of(env, t.arg, ranks)]
+    return ["at", ranks[t], t.size()]
+
+
+def nat_atoms(t, acc):
+    if t.is_number():
+        return acc
+    if t.is_plus() or t.is_times():
+        nat_atoms(t.arg1, acc)
+        nat_atoms(t.arg, acc)
+    elif t.is_comb("Suc", 1):
+        nat_atoms(t.arg, acc)
+    else:
+        acc.add(t)
+    return acc
+
+
 def stage_corr_natnorm(ctx, env):
-    pass
+    """data.nat.norm_full against the model `norm`.  Atoms: variables and f(variable) (sizes 1 and 3,
+    so a product and a single atom never have the same size -- see Model.lean)."""
+    rng = ctx.rng("corr/natnorm")
+    n = ctx.scale(300, 6000)
+    one = env.nat.one
+    cases, lines = [], []
+    fixed = ["(x * y) * (z * y)", "(x + y) + (z + y)", "(x + y) * (y + z)", "(x + y) * (x + y)", "0 + 1 * x + 0 * y", "x + 2 + y + 3",
+             "3 * x * 5 * x", "(x + 2 * y) * (y + 2 * x)", "(3::nat) + 5 * 2", "x + Suc y", "Suc (x + Suc y)", "x * Suc y", "x * 1 * 1 * 1"]
+    terms = []
+    for sx in fixed:       # the examples of data/tests/nat_test.py (over m n k instead of x y z)
+        terms.append(env.parser.parse_term(sx.replace("x", "m").replace("y", "n").replace("z", "k")))
+    for _ in range(n):
+        a = gen_arith(rng, "nat", rng.randint(0, 4), ops="+++***S", atoms=True)
+        terms.append(to_term(env, a, "nat"))
+    for t in terms:
+        atoms = nat_atoms(t, set())
+        ranked = env.term_ord.sorted_terms(list(atoms) + [one])
+        ranks = {a: i for i, a in enumerate(ranked)}
+        try:
+            with time_limit(30):
+                rhs = env.nat.norm_full().get_proof_term(t).prop.rhs
+            extra = nat_atoms(rhs, set()) - atoms
+            impl = "new-atoms" if extra else sexp.dumps(nexp_of(env, rhs, ranks))
+        except Timeout:
+            continue
+        except Exception as e:  # noqa
+            impl = "raise:" + type(e).__name__
+        cases.append((t, impl))
+        lines.append(sexp.dumps(["natnorm", ranks[one], nexp_of(env, t, ranks)]))
+    out = ctx.lean_driver(EXE, lines) if lines else []
+    if out is None:
+        ctx.broken("correspondence:c10:driver", "model driver unavailable")
+        return
+    nd = 0
+    for (t, impl), m in zip(cases, out):
+        ctx.case(("natnorm", str(tj(t))), nontrivial=t.is_plus() or t.is_times())
+        ctx.count("corr:natnorm:" + ("agree" if impl == m else "DISAGREE"))
+        if impl != m:
+            nd += 1
+            if nd <= 3:
+                ctx.broken("correspondence:c10:natnorm", "norm_full on %s: impl=%s model=%s" % (t, impl, m))
+                ctx.coverage["disagreements_checked"] += 1
+                judge(env, ctx, "data.nat.norm_full", ["cls", "data.nat.norm_full"], t)
 
 
 def replay_one(ctx, env, r):
